@@ -52,6 +52,12 @@ CALLS = {
     "LexiconSet::lookup": (None, {2: MB}),
     "Lexicon::lookup": (None, {2: MB}),
     "Lattice::reset": (None, {}),
+    # created-word bookkeeping counts code points of the normalised text; regex / automaton matches are byte offsets into it
+    "created::CreatedWords::has_word": (None, {1: MC}),
+    "created::CreatedWords::add_word": (None, {1: MC}),
+    "created::CreatedWords::single": (None, {0: MC}),
+    "regex::Match::start": (MB, {}), "regex::Match::end": (MB, {}), "regex::Match::range": (MB, {}), "regex::Match::len": (MB, {}),
+    "aho_corasick::Match::start": (MB, {}), "aho_corasick::Match::end": (MB, {}), "aho_corasick::Match::range": (MB, {}),
     # Python slices of the original str are in code points
     "PySlice::new": (None, {1: OC, 2: OC}),
 }
